@@ -132,6 +132,31 @@ def u_sparse_group_limits(h, which):
             h.ensure('prox[%d]' % k, h.eq(pa[k], pb[k]))
 
 
+def u_sgl_singletons(h, order):
+    """WeightedL1GroupL2 with singleton groups listed in any order and zero group weights == WeightedL1"""
+    Pm = P()
+    al = h.real('alpha')
+    s = h.real('step')
+    h.assume(al > 0, s > 0)
+    p = len(order)
+    wf = h.vec('wf', p)
+    for k in range(p):
+        h.assume(wf[k] >= 0)
+    gp = np.arange(p + 1, dtype=np.int32)
+    gi = np.array(order, dtype=np.int32)
+    a = h.penalty(Pm.WeightedL1GroupL2, alpha=al, weights_groups=h.const(np.zeros(p)), weights_features=wf,
+                  grp_ptr=gp, grp_indices=gi)
+    b = h.penalty(Pm.WeightedL1, alpha=al, weights=wf)
+    w = h.vec('w', p)
+    va = a.value(w)
+    h.observe('value', va)
+    h.ensure('value', h.eq(va, b.value(w)))
+    x = h.real('x')
+    for g in range(p):
+        h.ensure('prox[group %d = feature %d]' % (g, order[g]),
+                 h.eq(a.prox_1group(h.arr([x]), s, g)[0], b.prox_1d(x, s, order[g])))
+
+
 def u_one_task(h):
     """L2_1 with a single task == L1; QuadraticMultiTask with one task == Quadratic"""
     Pm, Dm = P(), D()
@@ -357,7 +382,15 @@ def units(tier):
                            dict(positive=pos, order=order), wall_s=60))
     for which in ('zero-group-weights', 'zero-feature-weights'):
         us.append(Unit('C14/K/sparse-group-lasso[%s]' % which, u_sparse_group_limits, dict(which=which), wall_s=60))
+    for order in ((1, 0), (0, 1), (2, 0, 1)):
+        us.append(Unit('C14/K/sparse-group-lasso-singletons[order=%s]' % (order,), u_sgl_singletons, dict(order=list(order)),
+                       wall_s=60))
     us.append(Unit('C14/K/one-task', u_one_task, {}, wall_s=60))
+    # Gram solver vs coordinate descent with acceleration on: both stop on a valid certificate of the same problem
+    from checks.c01 import u_cert
+    cacc = dict(solver='GramCD', kind='acc', datafit='Quadratic', penalty='L1', X='tri22', max_iter=3, max_iter_unpatched=21,
+                acc_stub=1, use_acc=True, greedy_cd=False, warm=False, fit_intercept=False)
+    us.append(Unit('C14/D/gram-accelerated-certificate', u_cert, dict(cfg=cacc), wall_s=150, timeout_ms=8000, patched=True))
     for n in ((1, 2) if q else (1, 2, 3)):
         us.append(Unit('C14/K/slope-constant[n=%d]' % n, u_slope_constant, dict(n=n), wall_s=120))
     for which in ('MCP', 'Huber'):
